@@ -9,6 +9,8 @@ CONSTANTS
   AllowBad = TRUE
   AllowSplit = FALSE
   AllowRst = FALSE
+  AllowTClose = FALSE
+  AllowCRst = FALSE
   Timeout = 2
   MaxNow = 2
   DrainMode = "raw"
